@@ -872,15 +872,16 @@ func Spec() *mon.Spec {
 			"database and journal live on tmpfs (/dev/shm): fsync is cheap there, but the calls are still made and traced",
 		},
 		Phases: []mon.Phase{
-			{Name: "inject", Quick: 32 * chunks, Thorough: 300 * chunks, Run: runInject, Batch: 1, Timeout: 600 * time.Second},
-			{Name: "sigkill", Quick: 32, Thorough: 300, Run: runSigkill, Batch: 1, Timeout: 600 * time.Second},
-			{Name: "torn", Quick: 4, Thorough: 16, Run: runTorn, Batch: 1, Timeout: 600 * time.Second},
+			{Name: "inject", Quick: 14 * chunks, Thorough: 300 * chunks, Run: runInject, Batch: 1, Timeout: 600 * time.Second},
+			{Name: "sigkill", Quick: 14, Thorough: 300, Run: runSigkill, Batch: 1, Timeout: 600 * time.Second},
+			{Name: "torn", Quick: 2, Thorough: 16, Run: runTorn, Batch: 1, Timeout: 600 * time.Second},
 		},
 		Floors: map[string]int{
-			"crashes": 500, "points_enumerated_pwrite64": 500, "points_enumerated_fdatasync": 500, "points_executed_pwrite64": 150, "points_executed_fdatasync": 150,
-			"points_killed_pwrite64": 150, "points_killed_fdatasync": 150,
-			"crashes_rolled_back_in_flight_op": 100, "crashes_committed_but_unacknowledged_op": 30, "crashes_between_data_write_and_meta_write": 50,
-			"crashes_during_open_or_create": 5, "second_crashes_in_one_history": 30, "pass1_acks_after_synced_write": 300, "sigkill_runs": 100, "distinct_nontrivial": 40,
+			"crashes": 300, "points_enumerated_pwrite64": 350, "points_enumerated_fdatasync": 250, "points_executed_pwrite64": 100, "points_executed_fdatasync": 100,
+			"points_killed_pwrite64": 100, "points_killed_fdatasync": 100,
+			"crashes_rolled_back_in_flight_op": 150, "crashes_committed_but_unacknowledged_op": 40, "crashes_between_data_write_and_meta_write": 80,
+			"crashes_during_open_or_create": 20, "second_crashes_in_one_history": 40, "pass1_acks_after_synced_write": 120, "sigkill_runs": 35, "distinct_nontrivial": 20,
+			"creation_image_cut": 3,
 		},
 	}
 }
